@@ -59,7 +59,8 @@ def gen_plan(seed, tier):
   n = r.randint(6, 40 if tier == "thorough" else 24)
   for i in range(n):
     k = r.wpick([(5, "flow_mod"), (8, "frame"), (4, "packet_out"),
-                 (3, "port_mod"), (1, "port_stats"), (1, "set_config")])
+                 (2, "po_buf"), (3, "port_mod"), (1, "port_stats"),
+                 (1, "set_config")])
     if k == "flow_mod":
       fs, port = r.pick(frames)
       key = G.frame_key(fs, port)
@@ -86,6 +87,15 @@ def gen_plan(seed, tier):
         acts.append(["output", W.OFPP_TABLE, 0])
       steps.append({"op": "packet_out", "in_port": in_port, "acts": acts,
                     "f": fs})
+    elif k == "po_buf":
+      # release a packet buffered by a table miss or an output:CONTROLLER
+      # action through an arbitrary action list (FLOOD/ALL/IN_PORT must
+      # still honour the packet's original ingress port)
+      steps.append({"op": "packet_out", "in_port": W.OFPP_NONE,
+                    "acts": [a for a in G.gen_actions(r, nports, rich=True)
+                             if not (a[0] == "output"
+                                     and a[1] == W.OFPP_TABLE)],
+                    "buffer": r.pick(["last", "last", "first"])})
     elif k == "port_mod":
       steps.append({"op": "port_mod", "port": r.randint(1, nports),
                     "hw_ok": r.chance(0.9),
